@@ -26,6 +26,9 @@ from .values import (ClassV, EnumV, ExcV, ExtV, FlagV, FuncV, InterpError, Lazy,
                      SymFloat, Unsupported, as_z3bool, is_z3, simp)
 
 
+MISSING_ = object()
+
+
 class Tags:
     def __init__(self):
         self.mask = {}
@@ -122,6 +125,8 @@ class Explorer:
         self._enum_vals = {}
         self.externals = {}
         self.dump_dir = None
+        self.draw_fn = None       # concrete RNG script (encoder cross-check only)
+        self.opaque_specs = {}    # spec function name -> (fixed parameter names, return type string)
         self.refute_bound = [8, 24]
         self.refute_timeout_ms = 20000
         self.refute_quick_ms = 8000
@@ -302,6 +307,53 @@ class Explorer:
             return v
         ns = SObj(None, {k: cp(v) for k, v in bound.items()}, 'old')
         return ns
+
+    def call_opaque(self, P, info, args):
+        """
+        Opaque spec function (contract option `opaque = {'fn': [[fixed param names], 'return type']}`):
+        a call whose leading arguments are *identical* to the named target parameters is replaced by an
+        uninterpreted function of the remaining arguments.  Sound abstraction (the spec function is a pure
+        function of its arguments); it hides a definition the proof does not need.
+        """
+        fixed, rtype = self.opaque_specs[info.name]
+        bound = getattr(P, 'bound', None)
+        if bound is None or len(args) < len(fixed):
+            return None
+        for a, nm in zip(args, fixed):
+            b = bound.get(nm, MISSING_)
+            if b is MISSING_:
+                return None
+            if a is b:
+                continue
+            if is_z3(a) and is_z3(b) and a.eq(b):
+                continue
+            if not is_z3(a) and not is_z3(b) and not isinstance(a, SObj) and a == b and type(a) is type(b):
+                continue
+            return None
+        rest = args[len(fixed):]
+        zs = []
+        for r in rest:
+            if isinstance(r, EnumV):
+                zs.append(z3.IntVal(r.idx) if isinstance(r.idx, int) else r.idx)
+            elif isinstance(r, bool):
+                zs.append(z3.IntVal(int(r)))
+            elif isinstance(r, int):
+                zs.append(z3.IntVal(r))
+            elif is_z3(r) and r.sort() == z3.IntSort():
+                zs.append(r)
+            elif is_z3(r) and r.sort() == z3.BoolSort():
+                zs.append(z3.If(r, z3.IntVal(1), z3.IntVal(0)))
+            else:
+                return None
+        rt = self.types.parse_str(rtype, None, None)
+        parts = rt[1] if rt[0] == 'tuple' else (rt,)
+        outs = []
+        for i, t in enumerate(parts):
+            sort = z3.IntSort() if t[0] == 'int' else z3.BoolSort()
+            f = z3.Function(f'opq_{info.name}_{i}', *([z3.IntSort()] * len(zs) + [sort]))
+            outs.append(f(*zs))
+        P.opaque_used = getattr(P, 'opaque_used', 0) + 1
+        return tuple(outs) if rt[0] == 'tuple' else outs[0]
 
     # ------------------------------------------------------------- verifying
     def cases(self, c: Contract, info: FunctionInfo | None):
@@ -581,6 +633,7 @@ class Explorer:
         c = self.contracts[cname]
         self.current = c
         self.merge_light_only = bool(c.opts.get('split_heavy', False))
+        self.opaque_specs = {k: (v[0], v[1]) for k, v in c.opts.get('opaque', {}).items()}
         info = self.index.find_function(c.target) if c.target else None
         case = case or {}
         self.queue.clear()
